@@ -10,6 +10,7 @@ import (
 	"regexp"
 	"strings"
 	"sync"
+	"sync/atomic"
 	"syscall"
 	"time"
 
@@ -144,12 +145,22 @@ func hung(j job, limit time.Duration) *rec {
 
 var hiveFrame = regexp.MustCompile(`github\.com/iotaledger/hive\.go/[^\s(]+(\([^)]*\))?[.\w]*`)
 
+// excerpt: the first n bytes of a child's stderr on one line.
+func excerpt(s string, n int) string {
+	s = strings.Join(strings.Fields(s), " ")
+	if len(s) > n {
+		s = s[:n] + " ..."
+	}
+
+	return s
+}
+
 // crashInfo extracts the panic message and the first hive.go frame from a dead child's stderr.
 func crashInfo(stderr string) (msg, where string) {
 	msg, where = "process died", "unknown"
 	lines := strings.Split(stderr, "\n")
 	for i, l := range lines {
-		if strings.HasPrefix(l, "panic:") || strings.HasPrefix(l, "fatal error:") {
+		if strings.HasPrefix(l, "panic:") || strings.HasPrefix(l, "fatal error:") || strings.HasPrefix(l, "WARNING: DATA RACE") {
 			msg = strings.TrimSpace(l)
 			for _, m := range lines[i+1:] {
 				if f := hiveFrame.FindString(m); f != "" {
@@ -259,6 +270,7 @@ func rtGuard() {
 var (
 	earlyMu   sync.Mutex
 	earlySeen = map[string]bool{}
+	earlyOff  atomic.Bool // set once the results go through hx as they arrive (hx owns the file from then on)
 )
 
 // earlyFindings appends the first finding of each signature to oracle.partial.jsonl (the file checklib reads when the
@@ -266,7 +278,7 @@ var (
 // after the whole sequential part, which a harness that is being slowed down by crashes or hangs may never reach.
 // (hx truncates the file when it streams its own first finding; by then these findings are on their way through hx.)
 func earlyFindings(dir string, j job, res *rec) {
-	if res == nil || len(res.Fails) == 0 {
+	if res == nil || len(res.Fails) == 0 || earlyOff.Load() {
 		return
 	}
 	earlyMu.Lock()
@@ -428,9 +440,18 @@ func runChunk(dir string, seq *int, part []job, par int, unit time.Duration) []*
 		}
 		cwg.Wait()
 		if !culprit {
-			if len(open) > 0 {
+			switch {
+			case len(open) > 0:
 				results[todo[open[0]]] = crashed(sub[open[0]], stderr, false)
-			} else {
+			case len(done) == len(sub):
+				// every job delivered its result and the process still ended abnormally: the race detector of a -race
+				// build (exit status 66 after "WARNING: DATA RACE"), or a failure after the last job.  The results
+				// stand; the abnormal end is a finding of its own with the report, attributed to the last job.
+				last := todo[len(sub)-1]
+				msg, where := crashInfo(stderr)
+				results[last].Fail("crash", fmt.Sprintf("the process of this part ended abnormally after all its jobs had delivered their results (%s; first hive.go frame: %s): %s; ops=%s",
+					msg, where, excerpt(stderr, 1500), strings.TrimPrefix(sub[len(sub)-1].Desc, "seq ")), map[string]string{"oracle": "abnormal-exit", "what": msg, "where": where})
+			default:
 				results[todo[0]] = crashed(sub[0], stderr, false)
 			}
 		}
